@@ -255,6 +255,9 @@ func gen(a Args, out *Out) {
 			}
 			h.HandleAdd()
 		}
+		if minp == 1<<30 {
+			minp = 97 // no periodic timer in this history
+		}
 		steps := r.Range(3, 25)
 		budget := int64(600) // deliveries
 		for s := 0; s < steps && budget > 0; s++ {
